@@ -66,7 +66,7 @@ for name, which, expect, a, b in M:
     if r.returncode != 0:
         print('%-26s expect %-16s vx exit %d (undecided): %s' % (name, expect, r.returncode, (r.stdout + r.stderr).strip()[-200:])); continue
     t0 = time.time()
-    r = subprocess.run(['timeout', '900', 'verus', out, '--rlimit', '100', '--triggers-mode', 'silent', '--multiple-errors', '2'], capture_output=True, text=True)
+    r = subprocess.run(['timeout', '900', 'verus', out, '--rlimit', os.environ.get('SG_RLIMIT', '100'), '--triggers-mode', 'silent', '--multiple-errors', '2'], capture_output=True, text=True)
     dt = time.time() - t0
     o = r.stdout + r.stderr
     res = [l for l in o.splitlines() if 'verification results' in l]
